@@ -137,4 +137,31 @@ PROPS['C06'] = {
     'assumptions': ['the uniform draws of numpy lie in [0, 1) and are multiples of 2^-53'],
 }
 
+ENVM = 'harness.corr_env'
+ENV_QUICK = [(ENVM, 'fam_env_shipped', 168, 16), (ENVM, 'fam_env_random', 800, 16)]
+ENV_THOROUGH = [(ENVM, 'fam_env_shipped', 21 * 200, 16), (ENVM, 'fam_env_random', 40000, 16)]
+
+PROPS['C04'] = {
+    'targets': ['GridVerse.Props.C04'],
+    'theorem_files': [('GridVerse/Props/C04.lean', 'C04_')],
+    'audit_prefix': 'C04_',
+    'families': {'quick': ENV_QUICK, 'thorough': ENV_THOROUGH},
+    'oracle_cases': {'quick': 1600, 'thorough': 60000},
+    'trusted_base': ['environment shells modelled by hand (Model/Env.lean); histories of reset/step/read operations on every shipped configuration (factory-built and hand-assembled) and random compositions, with every generator call recorded'],
+    'assumptions': ['on an exception the model machine keeps the pre-operation generator state (exact for exceptions raised before the first draw, the only ones an in-space environment raises)'],
+}
+
+PROPS['C20'] = {
+    'targets': ['GridVerse.Props.C20'],
+    'theorem_files': [('GridVerse/Props/C20.lean', 'C20_'), ('GridVerse/Props/C04.lean', 'C04_')] + AG('Actions'),
+    'audit_prefix': 'C20_',
+    'families': {
+        'quick': [(ENVM, 'fam_gym_shipped', 168, 16), (ENVM, 'fam_env_shipped', 84, 16)],
+        'thorough': [(ENVM, 'fam_gym_shipped', 21 * 200, 16), (ENVM, 'fam_env_shipped', 21 * 50, 16)],
+    },
+    'oracle_cases': {'quick': 320, 'thorough': 20000},
+    'trusted_base': ['gym.Env / gym.Wrapper / gym.make machinery and gym Box/Dict spaces (third party); GymEnvironment.seed is broken by gym version drift and not used'],
+    'assumptions': ['inside the advertised gym spaces = the model space predicate (C15) on the returned representation; gym Box.contains is modelled, checked at run time on every returned array'],
+}
+
 NOT_CLAIMED = {}
